@@ -91,7 +91,8 @@ structure Live where
 
 /-- One round: everything alive keeps its upstreams alive. -/
 def aliveStep (nodes : List NodeId) (S : State) (alive : NodeId → Bool) : NodeId → Bool :=
-  fun i => alive i || nodes.any (fun c => alive c && (S.loc c).ups.contains i)
+  -- a node holds its upstreams strongly; combine_latest also holds the streams of an explicit `emit_on`
+  fun i => alive i || nodes.any (fun c => alive c && ((S.loc c).ups.contains i || (S.loc c).emitOn.contains i))
 
 def aliveIter (nodes : List NodeId) (S : State) : Nat → (NodeId → Bool) → (NodeId → Bool)
   | 0, a => a
